@@ -12,7 +12,7 @@ import copy
 from fractions import Fraction
 
 from . import alg
-from .alg import Poly, P, B, C
+from .alg import Poly, P, B, C, L
 from .astutil import up, chain
 
 
@@ -64,6 +64,15 @@ class GenList:
     """A homogeneous list indexed by an axis label; ``elem`` is the generic element."""
     def __init__(self, label, elem):
         self.label, self.elem = label, elem
+
+
+class SymTable:
+    """A table: named columns sharing one row axis."""
+    def __init__(self, cols, label):
+        self.cols, self.label = dict(cols), label
+
+    def names(self):
+        return list(self.cols)
 
 
 class Pinned:
@@ -402,6 +411,8 @@ class Interp:
 
     def _generic_iter(self, itv, st):
         """Value(s) bound to the loop target for one generic iteration, or a list for concrete unrolling."""
+        if isinstance(itv, dict):
+            itv = list(itv)
         if isinstance(itv, (list, tuple)):
             return list(itv) if len(itv) <= 64 else None
         if isinstance(itv, GenList):
@@ -546,6 +557,11 @@ class Interp:
                 old[k] = val
             return
         if isinstance(old, GenList):
+            return
+        if isinstance(old, SymTable) and len(chain_nodes) == 1:
+            k = self.expr(chain_nodes[0].slice, env, mod)
+            if isinstance(k, str):
+                old.cols[k] = val if isinstance(val, Arr) else Unk('table column value', t)
             return
         if not isinstance(old, Arr):
             setv(Unk('subscript store into %r' % (old,), t))
@@ -1003,6 +1019,12 @@ class Interp:
             if name == 'physical_type':
                 return Unk('physical_type', e)
             return BoundExt(v, name)
+        if isinstance(v, SymTable):
+            if name == 'dtype':
+                return Obj(None, {'names': v.names()})
+            if name in ('columns', 'colnames'):
+                return v.names()
+            return BoundExt(v, name)
         if isinstance(v, Shape):
             return Unk('shape attribute', e)
         if isinstance(v, GenList):
@@ -1050,6 +1072,18 @@ class Interp:
                     return _element_at(v.elem, v.label, k)
                 return v.elem
             return Unk('generic list index', e)
+        if isinstance(v, SymTable):
+            k = self.expr(e.slice, env, mod)
+            if isinstance(k, str):
+                return v.cols.get(k, Unk('table has no column %r' % k, e))
+            if isinstance(k, Arr) and k.ndim == 1 and k.dims == (v.label,) and _is_boolean(k.poly):
+                new = v.label + "'"
+                return SymTable({c: Arr((new,) + tuple(a.dims[1:]), alg.mk_fn('compress', L(new), B(v.label, a.poly), B(v.label, k.poly)), unit=a.unit) for c, a in v.cols.items()}, new)
+            if isinstance(k, Arr) and k.ndim == 1 and not _is_boolean(k.poly):
+                return SymTable({c: Arr(k.dims + tuple(a.dims[1:]), alg.mk_fn('at', B(v.label, a.poly), P(k.poly)), unit=a.unit) for c, a in v.cols.items()}, k.dims[0])
+            if isinstance(k, Pinned):
+                return {c: Arr(tuple(a.dims[1:]), a.poly, unit=a.unit) for c, a in v.cols.items()}
+            return Unk('table index %r' % (k,), e)
         if isinstance(v, Shape):
             k = self.expr(e.slice, env, mod)
             if isinstance(k, int) and -len(v.dims) <= k < len(v.dims):
@@ -1262,6 +1296,11 @@ class Interp:
                 if last in ('isinf', 'isnan'):
                     return x.with_(poly=alg.mk_ind(last, x.poly), unit=None)
                 return x.with_(poly=alg.mk_fn(last, P(x.poly)))
+            if last in ('isin', 'in1d') and len(args) == 2:
+                a, b = self._as_arr(args[0]), self._as_arr(args[1])
+                if isinstance(a, Arr) and isinstance(b, Arr) and b.ndim == 1:
+                    return Arr(a.dims, alg.mk_ind('true', alg.mk_fn('isin', P(a.poly), B(b.dims[0], b.poly))), unit=num(1))
+                return Unk('isin', e)
             if last == 'strip' and args:
                 x = self._as_arr(args[0])
                 return x.with_(poly=alg.mk_fn('strip', P(x.poly))) if isinstance(x, Arr) else x
@@ -1327,7 +1366,7 @@ class Interp:
                 n = args[0]
                 lab = _len_label(n.poly) if isinstance(n, Arr) else None
                 if lab and len(args) == 1:
-                    return Arr((lab,), alg.mk_fn('arange', C(lab)), unit=num(1))
+                    return Arr((lab,), alg.mk_fn('arange', L(lab)), unit=num(1))
                 return Unk('arange(%r)' % (n,), e)
             if last == 'where' and len(args) == 3:
                 c, a, b = [self._as_arr(x) for x in args]
@@ -1374,7 +1413,7 @@ class Interp:
                 if any(isinstance(v, Unk) for v in a) or len(a) < 3:
                     return Unk('logspace', e)
                 extra = [C('%s=%s' % (k, v)) for k, v in sorted(kw.items())]
-                return Arr(('d',), alg.mk_fn('logspace', P(a[0].poly), P(a[1].poly), P(a[2].poly), *extra), unit=num(1), fresh=True)
+                return Arr(('d',), alg.mk_fn('logspace', L('d'), P(a[0].poly), P(a[1].poly), P(a[2].poly), *extra), unit=num(1), fresh=True)
             if last == 'hstack' or last == 'concatenate':
                 return Unk('hstack', e)
             if last == 'isscalar':
@@ -1395,6 +1434,8 @@ class Interp:
                 if isinstance(x, Arr) and x.ndim >= 1:
                     return Arr((), alg.count(x.dims[0]), unit=num(1)) if x.dims[0] else 1
                 if isinstance(x, GenList):
+                    return Arr((), alg.count(x.label), unit=num(1))
+                if isinstance(x, SymTable):
                     return Arr((), alg.count(x.label), unit=num(1))
                 return Unk('len(%r)' % (x,), e)
             if last == 'range':
@@ -1542,6 +1583,15 @@ class Interp:
             if name == 'argmin' or name == 'argmax':
                 return self.libcall('numpy.' + name, [recv] + args, kw, e, mod)
             return Unk('array method %s' % name, e)
+        if isinstance(recv, SymTable):
+            if name == 'sort' and args and isinstance(args[0], str) and args[0] in recv.cols:
+                order = alg.mk_fn('argsort', B(recv.label, recv.cols[args[0]].poly))
+                for c, a in list(recv.cols.items()):
+                    recv.cols[c] = a.with_(poly=alg.mk_fn('at', B(recv.label, a.poly), P(order)))
+                return None
+            if name == 'keys':
+                return recv.names()
+            return Unk('table method %s' % name, e)
         if isinstance(recv, list):
             if name == 'append' and args:
                 recv.append(args[0])
